@@ -9,6 +9,7 @@ package c09
 import (
 	"encoding/xml"
 	"fmt"
+	"strings"
 	"testing"
 
 	"mellium.im/xmpp/verifharness/internal/ev"
@@ -55,7 +56,10 @@ func TestC09ReplySweep(t *testing.T) {
 				step = 2
 			}
 			for target := 0; target < total; target += step {
-				for _, how := range []string{"dropped", "emptied", "no-attributes"} {
+				for _, how := range []string{"dropped", "emptied", "no-attributes", "followed-by-stream-error", "followed-by-comment"} {
+					if strings.HasPrefix(how, "followed-by") && target%2 == 1 {
+						continue
+					}
 					n := lit(whole)
 					k := 0
 					done := false
@@ -71,6 +75,16 @@ func TestC09ReplySweep(t *testing.T) {
 							parent.Children = append(append([]*xt.Node(nil), parent.Children[:i]...), parent.Children[i+1:]...)
 						case "emptied":
 							parent.Children[i].Children = nil
+						case "followed-by-stream-error", "followed-by-comment":
+							// a stream-level construct right behind this element (the reader
+							// the helper is given reports it as an error in mid-reply)
+							piece := `<stream:error><bad-format xmlns="urn:ietf:params:xml:ns:xmpp-streams"/></stream:error>`
+							if how == "followed-by-comment" {
+								piece = `<!-- c -->`
+							}
+							kids := append([]*xt.Node(nil), parent.Children[:i+1]...)
+							kids = append(kids, xt.Raw(piece))
+							parent.Children = append(kids, parent.Children[i+1:]...)
 						default:
 							var keep []xml.Attr
 							for _, a := range parent.Children[i].Attr {
